@@ -189,6 +189,69 @@ def run_script(exe, script, go_timeout=60.0, other_timeout=20.0, grace=10.0):
     return events
 
 
+def run_script_batch(exe, script, timeout=120.0, grace=10.0):
+    """The whole script written to the engine's stdin in ONE write (as `engine < file` or a GUI that does not wait for
+    answers would), then stdin is closed unless the script ends in quit.  Nothing fences the commands here, so the output
+    is attributed to them by its grammar alone: a uci command owns the lines up to and including uciok, an isready one
+    readyok line, a go the lines up to and including bestmove, every other command nothing.  Whatever does not fit is left
+    with the command at which it turned up - TLC (UciTrace.tla) then rejects that command.  Returns trace events."""
+    events = [{"ev": "start"}]
+    body = [c for c in script if c["kind"] not in ("quit", "eof")]
+    how = "quit" if any(c["kind"] == "quit" for c in script) else "eof"
+    data = b""
+    for c in body:
+        data += re.sub(rb"\\x([0-9a-fA-F]{2})", lambda m: bytes([int(m.group(1), 16)]), c["text"].encode()) + b"\n"
+    if how == "quit":
+        data += b"quit\n"
+    p = subprocess.Popen([exe], stdin=subprocess.PIPE, stdout=subprocess.PIPE, stderr=subprocess.DEVNULL)
+    try:
+        try:
+            out, _ = p.communicate(data, timeout=timeout)
+            rc = p.returncode
+        except subprocess.TimeoutExpired:
+            p.kill()
+            out, _ = p.communicate()
+            rc = None
+    finally:
+        try:
+            p.kill()
+        except Exception:
+            pass
+    lines = [x.rstrip("\r") for x in out.decode(errors="replace").split("\n")]
+    if lines and lines[-1] == "":
+        lines.pop()
+    i = 0
+    for ci, c in enumerate(body):
+        kind = c["kind"]
+        mine = []
+        if kind == "uci":
+            while i < len(lines):
+                mine.append(lines[i])
+                i += 1
+                if mine[-1].strip() == "uciok":
+                    break
+        elif kind == "isready":
+            if i < len(lines) and lines[i].strip() == "readyok":
+                mine.append(lines[i])
+                i += 1
+        elif kind == "go":
+            while i < len(lines):
+                mine.append(lines[i])
+                i += 1
+                if mine[-1].startswith("bestmove"):
+                    break
+        if ci == len(body) - 1 and i < len(lines):
+            mine += lines[i:]          # output nobody asked for
+            i = len(lines)
+        ev = {"ev": "cmd", "kind": kind, "text": c["text"], "out": [tokenise(x) for x in mine], "batch": True}
+        for f in ("sp", "start", "hm", "fm", "moves", "go"):
+            if f in c:
+                ev[f] = c[f]
+        events.append(ev)
+    events.append({"ev": "end", "how": how, "exit": rc if rc is not None else -1, "alive_after_grace_s": grace if rc is None else 0, "trailing": []})
+    return events
+
+
 def load_scripts(path):
     """split the records printed by a UciGen simulation into scripts (n restarts at 1)"""
     scripts, cur = [], []
